@@ -6,7 +6,7 @@ MANIFEST = dict(
     text="Theorems in coq/Properties/C06*.v (effect of an expiry: EXPRIED to the holder's connection, capacity freed, wake-up pending; CheckLockedEqual within one unit and equal updates ignored; deadline formulas at grant / update; the wheel scan hands over only due live holds, never an unlimited one, whatever the state (`_partial`: local form); re-check spacing bounds (`_partial`). Run level (C06_run.v, every core run, any tick sizes and sweep lags): every EXPRIED reply of an expiry sweep belongs to a live hold whose deadline has been reached, no earlier than start + E*unit + 1 for its current terms (the unlimited + 0xffff update sentinel excluded explicitly), both for the wheel and the long table (bucket integrity invariant); a hold with deadline MAXT is never handed to doExpried; the effect of every such call (release, EXPRIED, wake-up pending). Upper bound (C06_late.v, regular schedules: one-second ticks, an expiry sweep between two ticks, leader throughout, no un-renew flag): a hold whose deadline was never shortened is handed to doExpried at its deadline second exactly; after a shortening update within 8 s of the new deadline (the property allows 10); no held record stays held more than 8 s past its deadline; wheel and long-table placement invariant; the first sweep of a history and unlimited deadlines are stated separately) are machine-checked over the engine model; tie = differential correspondence with the manual clock incl. updates that lengthen/shorten, re-locks, unlocks racing the sweep at tick granularity; monitor = expiry window on implementation traces (E+2 s, E+10 s after a re-lock/update).",
     note="Trusted: Coq kernel; hand-written model validated by the correspondence check of the same run; extraction (ExtrOcamlBasic only); harness + hooks; sequential schedules at request/sweep granularity, one shard, manual clock (sweeper driver loops replayed by the harness); see evidence trusted_base for the full list of modelled-not-verified parts.",
 )
-PROFILES = [('expiry', 0.6), ('core', 0.2), ('aof', 0.2)]
+PROFILES = [('expiry', 0.6), ('core', 0.2), ('aof', 0.2), ('schedsweep', 0.12)]
 MONITORS = ['C06', 'PANIC']
 
 
